@@ -400,6 +400,7 @@ pub fn c14_worlds(tier: Tier) -> Vec<WorldSpec> {
             let mut s = spec(op, e, d);
             s.cfg.modes = vec![PMode::Pullable; 4];
             s.cfg.pull_discipline = true;
+            s.cfg.nested_events = false;
             s.cfg.data_budget = 3;
             s.name = format!("{} pullable E={} D={}", s.name, e, d);
             s
@@ -559,6 +560,7 @@ pub fn c13_worlds(tier: Tier) -> Vec<WorldSpec> {
             s.cfg.max_probes = 2;
             s.cfg.data_budget = 2;
             s.cfg.cross_act = true;
+            s.cfg.nested_events = false;
             s.name = format!("{} x2 E={} D={}", s.name, e, d);
             s
         })
